@@ -2,12 +2,13 @@
    the variant, whether the remote was reached through the wire adapters, and the OBSERVED result lists of the
    real implementation.  code 1: model result differs (as sets) from the observed one, or the model does not
    terminate; code 2: the observed result violates spec_C07 (is not the exact difference). *)
-From Coq Require Import List NArith Bool.
+From Coq Require Import List NArith ZArith Bool.
+From Coq Require Export Uint63.
 Import ListNotations.
 From AnySync Require Export Model.Ldiff.
 Open Scope N_scope.
 
-Inductive case :=
+Inductive ncase :=
 | CDiff (df th : N) (L R : list elem) (wire_ : bool) (new changed removed : list N)
 | CCompare (df th : N) (L R : list elem) (wire_ : bool) (new ours theirs removed : list N).
 
@@ -19,7 +20,7 @@ Definition model_diff (df th : N) (cmp : list (N*N) -> list (N*N) -> list (tag*N
   let other := remote_of (fresh df th (mk_contents R)) in
   diff_run df th cmp my (if w then wire other else other).
 
-Definition model_ok (c : case) : bool :=
+Definition model_ok (c : ncase) : bool :=
   match c with
   | CDiff df th L R w n ch rm =>
       match model_diff df th cmp_equal L R w with
@@ -35,17 +36,36 @@ Definition model_ok (c : case) : bool :=
       end
   end.
 
-Definition spec_ok (c : case) : bool :=
+Definition spec_ok (c : ncase) : bool :=
   match c with
   | CDiff df th L R w n ch rm => spec_C07_diff (mk_contents L) (mk_contents R) n ch rm
   | CCompare df th L R w n ours theirs rm => spec_C07_compare (mk_contents L) (mk_contents R) n ours theirs rm
+  end.
+
+(* ---- case files carry primitive 63-bit integers only (Coq parses N literals ~10x slower):
+   an element is (hash hi, hash lo, id, head) with hash = hi * 2^32 + lo; this decoder is unverified glue *)
+Definition n_of (i : int) : N := Z.to_N (Uint63.to_Z i).
+Definition el (t : int * int * int * int) : elem :=
+  let '(hi, lo, id, hd) := t in mkElem (n_of hi * 4294967296 + n_of lo) (n_of id) (n_of hd).
+
+Inductive case :=
+| ICDiff (df th : int) (L R : list (int * int * int * int)) (wire_ : bool) (new changed removed : list int)
+| ICCompare (df th : int) (L R : list (int * int * int * int)) (wire_ : bool) (new ours theirs removed : list int).
+
+Definition conv (c : case) : ncase :=
+  match c with
+  | ICDiff df th L R w n ch rm =>
+      CDiff (n_of df) (n_of th) (map el L) (map el R) w (map n_of n) (map n_of ch) (map n_of rm)
+  | ICCompare df th L R w n o t rm =>
+      CCompare (n_of df) (n_of th) (map el L) (map el R) w (map n_of n) (map n_of o) (map n_of t) (map n_of rm)
   end.
 
 Fixpoint check_from (i : N) (l : list case) : list (N * N) :=
   match l with
   | [] => []
   | c :: r =>
-      (if spec_ok c then (if model_ok c then [] else [(i, 1)]) else [(i, 2)]) ++ check_from (N.succ i) r
+      let c' := conv c in
+      (if spec_ok c' then (if model_ok c' then [] else [(i, 1)]) else [(i, 2)]) ++ check_from (N.succ i) r
   end.
 
 Definition check_all (base : N) (l : list case) : list (N * N) := check_from base l.
